@@ -70,7 +70,8 @@ def oracle_text(impl, text):
     out["parse"] = True
     out["ast"] = b
   except Exception as e:  # pylint: disable=broad-except
-    out["err"] = "%s: %s" % (type(e).__name__, str(e)[:300])
+    msg = str(e)
+    out["err"] = "%s: %s" % (type(e).__name__, msg if len(msg) <= 600 else msg[:300] + " ... " + msg[-300:])
     return out
   try:
     impl.verify(b)
@@ -459,8 +460,9 @@ def diff_causes(unexplained):
 
 def err_cause(err):
   """The template of an error message: quoted text, numbers and the position lines removed."""
-  msg = (err or "").strip().split("\n")[-1]
   first = (err or "").split(":", 1)[0].strip().split(" ")[-1]
+  ms = re.findall(r"(?m)^\s*\w*(?:Error|Exception): (.*)$", err or "")
+  msg = ms[-1] if ms else (err or "").strip().split("\n")[-1]
   msg = re.sub(r"'[^']*'|\"[^\"]*\"|`[^`]*`", "#", msg)
   msg = re.sub(r"\d+", "#", msg)
   msg = re.sub(r"\{[^}]*\}", "#", msg)
